@@ -99,8 +99,12 @@ func genModel(t *tape.Tape, thorough bool) []MClass {
 	}
 	// call sites
 	density := t.Int(0, 3) // sparse .. dense
+	shape := t.Pick(4)     // 0,1 random; 2 chain (long unfoldings with shared tails); 3 layered
+	foreignCls := []string{"A", "B", "C", "D", "E", "F"}
+	idx := 0
 	for ci := range model {
 		for fi := range model[ci].Functions {
+			idx++
 			n := 0
 			switch density {
 			case 0:
@@ -112,11 +116,24 @@ func genModel(t *tape.Tape, thorough bool) []MClass {
 			default:
 				n = t.Int(1, 4)
 			}
+			if shape == 2 && idx < len(decls) {
+				// chain edge to the next declared method: deep call trees that exceed the budget
+				d := decls[idx]
+				model[ci].Functions[fi].FunctionCalls = append(model[ci].Functions[fi].FunctionCalls, MCall{d.pkg, d.cls, d.fn})
+				if n > 1 {
+					n = 1
+				}
+			}
 			for k := 0; k < n; k++ {
 				var call MCall
-				switch kind := t.Pick(12); {
+				switch kind := t.Pick(13); {
 				case kind <= 7: // declared method (cycles, self loops and parallel edges arise freely)
-					d := decls[t.Pick(len(decls))]
+					var d decl
+					if shape == 3 && idx < len(decls) {
+						d = decls[idx+t.Pick(len(decls)-idx)] // only "later" methods: acyclic, layered
+					} else {
+						d = decls[t.Pick(len(decls))]
+					}
 					call = MCall{d.pkg, d.cls, d.fn}
 				case kind == 8: // callee declared nowhere
 					call = MCall{"ext.lib", "Lib", fmt.Sprintf("x%d", t.Pick(2))}
@@ -125,6 +142,8 @@ func genModel(t *tape.Tape, thorough bool) []MClass {
 				case kind == 10: // object creation (no function name)
 					d := decls[t.Pick(len(decls))]
 					call = MCall{d.pkg, d.cls, ""}
+				case kind == 11: // a method of the name pools that this model may not declare (another model may)
+					call = MCall{pkgs[t.Pick(len(pkgs))], foreignCls[t.Pick(len(foreignCls))], fmt.Sprintf("m%d", t.Pick(4))}
 				default: // same target again: parallel edge / repeated call site
 					if len(model[ci].Functions[fi].FunctionCalls) > 0 {
 						call = model[ci].Functions[fi].FunctionCalls[0]
@@ -703,9 +722,9 @@ func (C03) Rule() string {
 }
 func (C03) Budget(tier string) (int, time.Duration) {
 	if tier == "thorough" {
-		return 12000, 25 * time.Minute
+		return 400000, 25 * time.Minute
 	}
-	return 1200, 4 * time.Minute
+	return 8000, 4 * time.Minute
 }
 func (C03) Generate(t *tape.Tape, tier string) interface{} { return genCGScenario(t, tier) }
 func (C03) Run(ctx *sim.RunCtx, data json.RawMessage) (*sim.Outcome, error) {
@@ -732,9 +751,9 @@ func (C04) Rule() string {
 }
 func (C04) Budget(tier string) (int, time.Duration) {
 	if tier == "thorough" {
-		return 12000, 25 * time.Minute
+		return 400000, 25 * time.Minute
 	}
-	return 1200, 4 * time.Minute
+	return 8000, 4 * time.Minute
 }
 func (C04) Generate(t *tape.Tape, tier string) interface{} { return genCGScenario(t, tier) }
 func (C04) Run(ctx *sim.RunCtx, data json.RawMessage) (*sim.Outcome, error) {
